@@ -740,6 +740,7 @@ int main(int argc, char** argv)
                     // the worker died while replaying: report the history (an abort inside the node is a finding, not silence)
                     w.dead = true;
                     { int st; waitpid(w.pid, &st, 0); close(w.to); close(w.from); w.to = w.from = -1; }
+                    { std::error_code ec; std::filesystem::remove_all(vx::scratch_dir() + "/c21-" + std::to_string(w.pid), ec); }
                     if (++respawns <= 200) spawn(w); // a mutated / broken node may abort on many histories: keep the pool alive
                     std::string k = "process-died";
                     if (viol_keys.insert(k).second) { nviol++; printf("CXXVIOL\t%s\tworker process died (assert/abort/crash inside the node or an index) while replaying history [%s]\thistory %s\n", k.c_str(), jobs[w.job].c_str(), jobs[w.job].c_str()); }
